@@ -58,6 +58,8 @@ pub struct Case {
     pub desc: f64,
     pub vertical: bool,
     pub glyphs: Vec<G>,
+    /// source-assigned OS/2 ulUnicodeRange bits (`openTypeOS2UnicodeRanges`), normally absent
+    pub assigned_ur: Option<Vec<u32>>,
 }
 
 const MARKERS: [u32; 30] = [
@@ -192,7 +194,7 @@ pub fn gen_case(rng: &mut Rng) -> Case {
         }
         glyphs.push(G { width, height, vorg, cps, shape: shapes[g].clone().unwrap() });
     }
-    Case { upem, asc, desc, vertical, glyphs }
+    Case { upem, asc, desc, vertical, glyphs, assigned_ur: None }
 }
 
 fn name_of(i: usize) -> GlyphName {
@@ -295,7 +297,7 @@ pub fn run_case(case: &Case) -> Vec<S> {
     // ---- IR side
     let fe_root = FeContext::new_root(Default::default(), None);
     let fe = fe_root.copy_for_work(Access::All, Access::All);
-    let sm = ir::StaticMetadata::new(
+    let mut sm = ir::StaticMetadata::new(
         case.upem,
         HashMap::new(),
         vec![],
@@ -307,6 +309,7 @@ pub fn run_case(case: &Case) -> Vec<S> {
         case.vertical,
     )
     .expect("static metadata");
+    sm.misc.unicode_range_bits = case.assigned_ur.as_ref().map(|v| v.iter().copied().collect());
     fe.static_metadata.set(sm);
     let mut gm = ir::GlobalMetricsBuilder::new();
     gm.populate_defaults(&default_loc, case.upem, None, Some(case.asc), Some(case.desc), None);
@@ -351,6 +354,9 @@ pub fn run_case(case: &Case) -> Vec<S> {
         S::k1("desc", S::f64(typo_desc)),
         S::k1("vertical", S::usize(case.vertical as usize)),
     ];
+    if let Some(bits) = &case.assigned_ur {
+        fields.push(S::k1("assigned_ur", S::list(bits.iter().map(|b| S::int(*b as i64)))));
+    }
     let mut works: Vec<(&str, Box<fontbe::orchestration::BeWork>)> = vec![
         ("glyf", fontbe::glyphs::create_glyf_loca_work()),
         ("head", fontbe::head::create_head_work()),
@@ -360,11 +366,24 @@ pub fn run_case(case: &Case) -> Vec<S> {
         works.push(("vmtx", fontbe::vertical_metrics::create_vertical_metrics_work()));
     }
     works.push(("os2", fontbe::os2::create_os2_work()));
+    // a panic inside one work item is reported as `(err (<work> panic <message>))` together with the glyph
+    // data, so the driver can tell an overflow that belongs to property C19 from a genuine failure
     let mut err = S::atom("none");
     for (what, w) in &works {
-        if let Err(e) = w.exec(&be) {
-            err = S::list([S::atom(*what), err_word(&e)]);
-            break;
+        let r = std::panic::catch_unwind(std::panic::AssertUnwindSafe(|| w.exec(&be)));
+        match r {
+            Ok(Ok(())) => {}
+            Ok(Err(e)) => {
+                err = S::list([S::atom(*what), err_word(&e)]);
+                break;
+            }
+            Err(p) => {
+                let msg = p.downcast_ref::<String>().cloned()
+                    .or_else(|| p.downcast_ref::<&str>().map(|s| s.to_string()))
+                    .unwrap_or_default();
+                err = S::list([S::atom(*what), S::atom("panic"), S::str(&msg)]);
+                break;
+            }
         }
     }
     // glyph data as stored (after composite bboxes were filled in)
@@ -386,7 +405,9 @@ pub fn run_case(case: &Case) -> Vec<S> {
     ));
     let mut im = vec![S::k1("err", err.clone())];
     im.push(S::k1("bboxes", S::list(frags.iter().map(|f| s_bbox(f.data.bbox())))));
-    im.push(S::k1("sizes", S::list(frags.iter().map(|f| S::usize(f.to_bytes().len())))));
+    if err == S::atom("none") {
+        im.push(S::k1("sizes", S::list(frags.iter().map(|f| S::usize(f.to_bytes().len())))));
+    }
     if err == S::atom("none") {
         let loca_fmt = {
             let f: write_fonts::tables::loca::LocaFormat = (*be.loca_format.get().as_ref()).into();
@@ -465,7 +486,9 @@ pub fn run_case(case: &Case) -> Vec<S> {
 ///  5  unchecked i16 `-` in vertical_metrics: vertical_origin - yMax = -40000 (C19)
 ///  6  `as u16` on a point count of 65536 in MaxBuilder::update (C19)
 ///  7  second side bearing clamp: advance 40000, xMax 100 (C19)
-pub const N_DIRECTED: usize = 8;
+///  8  source-assigned Unicode range bit 200 (UFO openTypeOS2UnicodeRanges is a list of u8): index 6 of a
+///     4-word array in apply_unicode_range (C15)
+pub const N_DIRECTED: usize = 9;
 
 fn tri(x: i16, y: i16) -> Shape {
     Shape::Simple(vec![vec![(x, y, true), (x + 100, y, true), (x, y + 100, true)]])
@@ -476,7 +499,7 @@ fn plain(width: f64, cps: Vec<u32>, shape: Shape) -> G {
 }
 
 pub fn directed_case(i: usize) -> Case {
-    let base = |glyphs: Vec<G>| Case { upem: 1000, asc: 800.0, desc: -200.0, vertical: false, glyphs };
+    let base = |glyphs: Vec<G>| Case { upem: 1000, asc: 800.0, desc: -200.0, vertical: false, glyphs, assigned_ur: None };
     let ident = |gid: u16| Comp { gid, dx: 0, dy: 0, q: [4, 0, 0, 4] };
     match i % N_DIRECTED {
         0 => {
@@ -523,13 +546,18 @@ pub fn directed_case(i: usize) -> Case {
             }
             base(vec![plain(500.0, vec![0x41], Shape::Simple(cs))])
         }
-        _ => base(vec![plain(40000.0, vec![0x41], tri(0, 0))]),
+        7 => base(vec![plain(40000.0, vec![0x41], tri(0, 0))]),
+        _ => {
+            let mut c = base(vec![plain(500.0, vec![0x41], tri(0, 0))]);
+            c.assigned_ur = Some(vec![0, 200]);
+            c
+        }
     }
 }
 
 /// One-off replay through the whole compiler (`vharness c17x probe`): a UFO with `space` (empty),
 /// `nbspace` (component of `space`) and `A` (triangle with xMin 50); prints head/hhea of the built font.
-fn probe_empty_composite() {
+fn probe_empty_composite(extra_fontinfo: &str) {
     use write_fonts::read::{FontRef, TableProvider};
     let dir = crate::e2e::build::tmpdir("c17probe");
     let ufo = dir.path().join("P.ufo");
@@ -537,7 +565,7 @@ fn probe_empty_composite() {
     std::fs::create_dir_all(&gl).unwrap();
     let head = "<?xml version=\"1.0\" encoding=\"UTF-8\"?>\n<!DOCTYPE plist PUBLIC \"-//Apple//DTD PLIST 1.0//EN\" \"http://www.apple.com/DTDs/PropertyList-1.0.dtd\">\n<plist version=\"1.0\">\n";
     std::fs::write(ufo.join("metainfo.plist"), format!("{head}<dict><key>creator</key><string>verif</string><key>formatVersion</key><integer>3</integer></dict></plist>")).unwrap();
-    std::fs::write(ufo.join("fontinfo.plist"), format!("{head}<dict><key>familyName</key><string>Probe</string><key>styleName</key><string>Regular</string><key>unitsPerEm</key><integer>1000</integer><key>ascender</key><integer>800</integer><key>descender</key><integer>-200</integer></dict></plist>")).unwrap();
+    std::fs::write(ufo.join("fontinfo.plist"), format!("{head}<dict><key>familyName</key><string>Probe</string><key>styleName</key><string>Regular</string><key>unitsPerEm</key><integer>1000</integer><key>ascender</key><integer>800</integer><key>descender</key><integer>-200</integer>{extra_fontinfo}</dict></plist>")).unwrap();
     std::fs::write(ufo.join("layercontents.plist"), format!("{head}<array><array><string>public.default</string><string>glyphs</string></array></array></plist>")).unwrap();
     std::fs::write(gl.join("contents.plist"), format!("{head}<dict><key>A</key><string>A_.glif</string><key>space</key><string>space.glif</string><key>nbspace</key><string>nbspace.glif</string></dict></plist>")).unwrap();
     std::fs::write(gl.join("A_.glif"), "<?xml version=\"1.0\" encoding=\"UTF-8\"?>\n<glyph name=\"A\" format=\"2\"><advance width=\"600\"/><unicode hex=\"0041\"/><outline><contour><point x=\"50\" y=\"10\" type=\"line\"/><point x=\"150\" y=\"10\" type=\"line\"/><point x=\"50\" y=\"110\" type=\"line\"/></contour></outline></glyph>").unwrap();
@@ -567,7 +595,12 @@ fn probe_empty_composite() {
 
 pub fn run_directed(args: &Args) {
     if args.rest.iter().any(|a| a == "probe") {
-        probe_empty_composite();
+        probe_empty_composite("");
+        return;
+    }
+    if args.rest.iter().any(|a| a == "probe-ur") {
+        // UFO fontinfo with a Unicode-range bit outside 0..127 (norad's Bitlist is an unvalidated Vec<u8>)
+        probe_empty_composite("<key>openTypeOS2UnicodeRanges</key><array><integer>0</integer><integer>200</integer></array>");
         return;
     }
     crate::run_cases("c17x", args, move |i| {
